@@ -13,41 +13,70 @@ S = 'lightmotif::sampler::Sampler'
 
 
 def effects(f, R):
-    """Relational summary of the count updates of one function."""
+    """Relational summary of the count updates of one function, independent of the loop form (index loops, enumerate, zipped iterators):
+    every `x op= y` store is put in the canonical element form of lm/iteralg.py first."""
+    from lm import iteralg
     out = []
+    CA = iteralg.Canon(f, R)
     for s in X.stores(f, R):
-        tg, v = norm(s['target']), norm(s['value'])
-        if not (v[0] == 'bin' and v[1] in ('Add', 'Sub') and v[2] == tg):
+        tg0, v0 = norm(s['target']), norm(s['value'])
+        if not (v0[0] == 'bin' and v0[1] in ('Add', 'Sub') and v0[2] == tg0):
             continue
-        op = '+' if v[1] == 'Add' else '-'
-        rhs = v[3]
-        # motif[(i, idx(seq[j]))] op= 1
-        coords = ('call~', 'MatrixCoordinates::new', (('fld', ('elem', ('call~', 'enumerate', (('agg', '_', ('$lo', '$hi')),)), '$L'), '0'),
-                                                      ('call~', 'as_index', (('call~', '::index', ('$seq', ('fld', ('elem', '$src2', '$L'), '1'))),))))
-        b = m(('call~', 'index_mut', ('$arr', coords)), tg)
+        op = '+' if v0[1] == 'Add' else '-'
+        tg, rhs = CA.canon(tg0), CA.canon(v0[3])
+        base = {'op': op, 'block': s['block'], 'span': s['span']}
+        # motif[(i, idx(seq[lo + i]))] op= 1   for i in 0..hi-lo
+        b = m(('at', '$arr', ('call~', 'MatrixCoordinates::new', ('$i', ('call~', 'as_index', (('at', '$seq', '$j'),))))), tg)
+        if b is not None and rhs == ('k', 1) and iteralg.is_pos(b['$i']):
+            L = b['$i'][1]
+            ext = CA.extents.get(L, [])
+            lj = X.lin(b['$j'])
+            pos_atom = X.canon(b['$i'])
+            if len(ext) == 1 and ext[0][0] == 'sub' and lj.get(pos_atom) == 1:
+                lo = ext[0][2]
+                rest = {k: v for k, v in lj.items() if k != pos_atom}
+                if rest == X.lin(lo) or (not rest and lo == ('k', 0)):
+                    out.append(dict(base, kind='motif-window', arr=b['$arr'], lo=lo, hi=ext[0][1], seq=b['$seq']))
+                    continue
+        # bg[s] op= counts[s]   for every symbol index s
+        b = m(('at', '$arr', '$i'), tg)
+        c = m(('at', '$counts', '$i2'), rhs)
+        if b is not None and c is not None and iteralg.is_pos(b['$i']) and b['$i'] == c['$i2']:
+            ext = CA.extents.get(b['$i'][1], [])
+
+            def full(comp):
+                if comp[0] == 'sub' and comp[2] == ('k', 0) and common.is_usize_const(comp[1]):
+                    return True
+                # a zip over the whole arrays: both are GenericArray<_, K>, so the shorter one still has K elements
+                return comp[0] == 'len' and comp[1] in (b['$arr'], c['$counts'])
+            rng = ext[0][1] if len(ext) == 1 and ext[0][0] == 'sub' else ('k', '?')
+            out.append(dict(base, kind='bg-all', arr=b['$arr'], counts=c['$counts'], range_full=bool(ext) and all(full(x) for x in ext), range=rng))
+            continue
+        # bg[idx(seq[j])] op= 1   for j in lo..hi
+        b = m(('at', '$arr', ('call~', 'as_index', (('at', '$seq', '$j'),))), tg)
         if b is not None and rhs == ('k', 1):
-            out.append({'kind': 'motif-window', 'op': op, 'arr': b['$arr'], 'lo': b['$lo'], 'hi': b['$hi'], 'seq': b['$seq'], 'block': s['block'], 'span': s['span']})
-            continue
-        b = m(('idx', '$arr', ('elem', ('agg', '_', (('k', 0), '$K')), '$L')), tg)
-        if b is not None:
-            c = m(('call~', '::index', ('$counts', ('elem', '_', '$L2'))), rhs) or m(('idx', '$counts', ('elem', '_', '$L2')), rhs)
-            if c is not None and c['$L2'] == b['$L']:
-                full = b['$K'][0] == 'kc' and b['$K'][1].endswith('Unsigned::USIZE')
-                out.append({'kind': 'bg-all', 'op': op, 'arr': b['$arr'], 'counts': c['$counts'], 'block': s['block'], 'span': s['span'],
-                            'range_full': full, 'range': b['$K']})
+            lj = X.lin(b['$j'])
+            done = False
+            for px in [x for x in X.walk(b['$j']) if iteralg.is_pos(x)]:
+                ext = CA.extents.get(px[1], [])
+                pos_atom = X.canon(px)
+                if len(ext) == 1 and ext[0][0] == 'sub' and lj.get(pos_atom) == 1:
+                    lo = ext[0][2]
+                    rest = {k: v for k, v in lj.items() if k != pos_atom}
+                    if rest == X.lin(lo) or (not rest and lo == ('k', 0)):
+                        out.append(dict(base, kind='bg-window', arr=b['$arr'], lo=lo, hi=ext[0][1], seq=b['$seq']))
+                        done = True
+                        break
+            if done:
                 continue
-        b = m(('idx', '$arr', ('call~', 'as_index', (('call~', '::index', ('$seq', ('elem', ('agg', '_', ('$lo', '$hi')), '$L'))),))), tg)
-        if b is not None and rhs == ('k', 1):
-            out.append({'kind': 'bg-window', 'op': op, 'arr': b['$arr'], 'lo': b['$lo'], 'hi': b['$hi'], 'seq': b['$seq'], 'block': s['block'], 'span': s['span']})
-            continue
-        out.append({'kind': 'other', 'op': op, 'target': tg, 'block': s['block'], 'span': s['span']})
+        out.append(dict(base, kind='other', target=tg0))
     return out
 
 
 def window_ok(e, z_pred, starts_pred=None, width_pred=None):
-    """lo = starts[z], hi = lo + width."""
+    """lo = starts[z], hi = lo + width (canonical element forms of lm/iteralg.py)."""
     lo, hi = e['lo'], e['hi']
-    b = m(('call~', '::index', ('$starts', '$z')), lo) or m(('idx', '$starts', '$z'), lo)
+    b = m(('at', '$starts', '$z'), lo)
     starts_pred = starts_pred or (lambda x: m(('fld', ('p', 1), 'starts'), x) is not None)
     if b is None or not z_pred(b['$z']) or not starts_pred(b['$starts']):
         return False
@@ -78,13 +107,13 @@ def r161(db, ctx):
             if e['kind'] in ('motif-window', 'bg-window'):
                 if not window_ok(e, is_z):
                     probs.append(f'{e["kind"]} window is {X.show(e["lo"], 50)}..{X.show(e["hi"], 60)}, expected starts[z]..starts[z]+width')
-                sq = m(('idx', '$seqs', ('p', 2)), e['seq']) or m(('call~', '::index', ('$seqs', ('p', 2))), e['seq'])
+                sq = m(('at', '$seqs', ('p', 2)), e['seq'])
                 if sq is None or 'sequences' not in X.canon(e['seq']):
                     probs.append(f'{e["kind"]} reads symbols from {X.show(e["seq"], 60)}, expected sequences[z]')
             if e['kind'] == 'bg-all' and not e['range_full']:
                 probs.append(f'bg-all loop runs over 0..{X.show(e["range"], 80)}, not over all K symbol indices 0..K::USIZE (some symbol counts never reach the background)')
             if e['kind'] == 'bg-all':
-                c = m(('call~', '::index', ('$c', ('p', 2))), e['counts']) or m(('idx', '$c', ('p', 2)), e['counts'])
+                c = m(('at', '$c', ('p', 2)), e['counts'])
                 if c is None or 'counts' not in X.canon(e['counts']):
                     probs.append(f'bg-all adds {X.show(e["counts"], 60)}, expected data.counts[z]')
             arr = X.canon(e['arr'])
@@ -140,20 +169,24 @@ def r162(db, ctx):
         if not g:
             probs.append(f'{e["kind"]} not guarded by active.test(i)')
             continue
-        zi = norm(g[0][1][2][1])
-        bz = m(('fld', ('elem', ('call~', 'enumerate', ('$src',)), '$L'), '0'), zi)
-        if bz is None or 'sequences' not in X.canon(bz['$src']):
-            probs.append('the guard index is not the enumerate counter over data.sequences')
+        from lm import iteralg
+        CA = iteralg.Canon(f, R)
+        zi = CA.canon(g[0][1][2][1])
+        # the guard index is the position in the loop over data.sequences; the i-th sequence is the element at that position
+        ext = CA.extents.get(zi[1], []) if iteralg.is_pos(zi) else []
+        seqs = [c_[1] for c_ in ext if c_[0] == 'len']
+        if not iteralg.is_pos(zi) or len(seqs) != 1 or 'sequences' not in X.canon(seqs[0]):
+            probs.append('the guard index is not the position of the loop over data.sequences')
             continue
         if e['kind'] in ('motif-window', 'bg-window'):
             if not window_ok(e, lambda x: x == zi, is_starts, lambda x: agg.get('width') is not None and x == agg['width']):
                 probs.append(f'{e["kind"]} window is not starts[i]..starts[i]+width')
-            if e['seq'] != ('fld', zi[1], '1'):
+            if e['seq'] != ('at', seqs[0], zi):
                 probs.append(f'{e["kind"]} reads symbols from {X.show(e["seq"], 60)}, not the i-th sequence')
         else:
             if not e['range_full']:
                 probs.append(f'bg-all loop runs over 0..{X.show(e["range"], 80)}, not over all K symbol indices')
-            c = m(('call~', '::index', ('$c', zi)), e['counts'])
+            c = m(('at', '$c', zi), e['counts'])
             if c is None or 'counts' not in X.canon(e['counts']):
                 probs.append('bg-all does not add data.counts[i]')
         # zeroed start
@@ -183,7 +216,7 @@ def root_field(tg):
     """Field of self that a store target is rooted in (through indexing / index_mut / deref)."""
     e = tg
     for _ in range(12):
-        if e[0] == 'idx':
+        if e[0] in ('idx', 'at'):
             e = e[1]
         elif e[0] == 'call' and e[2] and (e[1].endswith(('index_mut', 'deref_mut', 'as_mut', 'as_mut_slice'))):
             e = e[2][0]
@@ -208,8 +241,10 @@ def r163(db, ctx):
             continue
         R = X.Rec(f)
         owner = f.name if f.kind != 'Closure' else f.raw.get('parent', '').rsplit('::', 1)[-1]
+        from lm import iteralg
+        CA = iteralg.Canon(f, R)
         for s in X.stores(f, R):
-            rf = root_field(norm(s['target']))
+            rf = root_field(CA.canon(s['target']))
             for fld in STATE:
                 if rf == fld:
                     if owner not in allowed[fld]:
@@ -318,16 +353,27 @@ def r165(db, ctx):
     f = db.fn(f'{S}::_new')
     clos = db.closures_of(f)
     ok = False
-    for c in clos:
-        e = common.return_expr_single_path_allow(c)
-        if e is None:
-            continue
-        en = norm(e)
-        b = m(('call~', 'Rng::sample', ('_', ('call~', 'Uniform::new', (('k', 0), '$hi')))), en)
-        if b is not None:
+    # the sampling call may sit in a closure (`sequences.iter().map(|seq| rng.sample(..)).collect()`) or in a loop body (`for seq in .. { starts.push(rng.sample(..)) }`)
+    for g_ in [f] + clos:
+        Rg = X.Rec(g_)
+        for bi, t in g_.calls():
+            if not (g_.callee_short(t) or '').endswith('Rng::sample'):
+                continue
+            en = norm(Rg.call(t))
+            b = m(('call~', 'Rng::sample', ('_', ('call~', 'Uniform::new', (('k', 0), '$hi')))), en)
+            if b is None:
+                continue
             l = X.lin(b['$hi'])
             ks = {k: v for k, v in l.items() if k != ''}
-            if l.get('', 0) == 1 and sorted(ks.values()) == [-1, 1] and any('len' in k and v == 1 for k, v in ks.items()) and any(v == -1 for k, v in ks.items()):
+            if not (l.get('', 0) == 1 and sorted(ks.values()) == [-1, 1] and any('len' in k and v == 1 for k, v in ks.items()) and any(v == -1 for k, v in ks.items())):
+                continue
+            if g_ is f:
+                # loop form: the sampled value is pushed, once per sequence, onto the vector that becomes `starts`
+                pushes = [(b2, t2) for b2, t2 in f.calls() if (f.callee_short(t2) or '').endswith('Vec::push') and any(b2 in L_['body'] and bi in L_['body'] for L_ in f.loops())]
+                per_seq = any(x[0] == 'elem' and 'sequences' in X.canon(x[1]) for x in X.walk(en))
+                if pushes and per_seq:
+                    ok = True
+            else:
                 ok = True
     (ctx.ok if ok else ctx.fail)('R16.5', f, 'initial start ~ Uniform::new(0, seq.len() - width + 1)', *([['exclusive upper bound: start + width <= len']] if ok else ['initial start range is not 0 .. len - width + 1']))
     # wrap guard
@@ -338,6 +384,16 @@ def r165(db, ctx):
         if e is not None and m(('bin', 'Lt', ('call~', 'StripedSequence::wrap', ('_',)), '$w'), norm(e)) is not None:
             g = True
     pan = any((f.callee_short(t) or '').startswith(('core::panicking', 'std::rt::panic')) for _, t in f.calls())
+    if not g:
+        # loop form: a panic whose block is only reached when wrap(seq) < width for an element of the loop over all sequences
+        for bi, t in f.calls():
+            if (f.callee_short(t) or '').startswith(('core::panicking', 'std::rt::panic')):
+                rels = G.relations(f, R, bi)
+                for r in rels:
+                    if r[0] == 'lt' and common.is_call_to(r[1], 'StripedSequence::wrap') and norm(r[2]) == ('p', 2):
+                        x = norm(r[1])[2][0]
+                        if any(y[0] == 'elem' and 'sequences' in X.canon(y[1]) and not any(z[0] == 'call' and z[1].rsplit('::', 1)[-1] in ('take', 'skip', 'step_by', 'filter') for z in X.walk(y[1])) for y in X.walk(x)):
+                            g = True
     (ctx.ok if g and pan else ctx.fail)('R16.5', f, '_new diverges unless every sequence has wrap >= width', *([['any(|x| x.wrap() < width) -> panic']] if g and pan else ['missing wrap precondition']))
     # update_holdout
     u = db.fn(f'{S}::update_holdout')
